@@ -369,14 +369,22 @@ class Alg:
             (m, c), = [(m, c) for m, c in p.t.items() if m != ()]
             if c == -1 and len(m) == 1 and m[0][1] == 2 and m[0][0] in self.sin_arg:
                 return self.cos(self.sin_arg[m[0][0]])
-        # perfect square monomial: sqrt(c * x^2k)
+        # perfect square monomial: sqrt(c * x^2k) = sqrt(c) * |x|^k ; the absolute value is
+        # dropped only for atoms known to be non-negative (square roots, positive constants)
         if len(p.t) == 1:
             (m, c), = p.t.items()
             if c > 0 and all(pw % 2 == 0 for _, pw in m):
                 cr = self.sqrt(self.const(c))
                 if self.is_const(cr):
-                    half = Poly({tuple((a_, pw // 2) for a_, pw in m): self.const_of(cr)})
-                    return Rat(half, self.p_const(1))
+                    out = self.const(self.const_of(cr))
+                    for a_, pw in m:
+                        base = self._r(self.p_atom(a_))
+                        if not self._nonneg(a_):
+                            nm = 'abs(%s)' % a_
+                            self.sqrt_of[nm] = self.p_mul(self.p_atom(a_), self.p_atom(a_))
+                            base = self._r(self.p_atom(nm))
+                        out = self.mul(out, self.powi(base, pw // 2))
+                    return out
         name = 'sqrt(%s)' % p.key()
         self.sqrt_of[name] = p
         return Rat(self.p_atom(name), self.p_const(1))
@@ -390,6 +398,15 @@ class Alg:
             del t[m]
             return self._r(Poly(t)), int(c // 90) % 4
         return a, 0
+
+    def _nonneg(self, at):
+        if at.startswith(('sqrt(', 'abs(')):
+            return True
+        if at.startswith('inv('):
+            b = self.inverse.get(at)
+            return b is not None and self._nonneg(b)
+        v = self.numeric.get(at)
+        return v is not None and v > 0
 
     def sin(self, a):
         if self.is_zero(a):
